@@ -61,6 +61,7 @@ var suites = map[string]func(o corrOpts) *res.Summary{
 	"iset":    func(o corrOpts) *res.Summary { return corrISet(o.tier, o.seed, o.replay) },
 	"excerpt": corrExcerpt,
 	"cfg":     corrCfg,
+	"std":     corrStd,
 	"gram":    corrGram,
 	"progdir": corrProgDir,
 	"prog":    corrProg,
